@@ -5,6 +5,8 @@ two samplers.
 -/
 import QmcModel.HeatBath
 import QmcProofs.Diagonal
+import QmcProofs.Common
+import QmcProofs.CommonRand
 
 namespace Qmc
 open RS
@@ -141,15 +143,7 @@ theorem heatBathSlot_ok (H : Ham) (bw : BW) (β : Rat) (L : Nat) : SlotOK (heatB
             · simp at h
             · simp only [Option.some.injEq] at h; subst h; exact hd
 
-/-- `gen_range(0.0..t)` never returns a negative number -/
-theorem genRangeF_nonneg (rs : RS) (t : Rat) : 0 ≤ (rs.genRangeF t).1 := by
-  unfold genRangeF
-  by_cases h : t ≤ 0
-  · rw [if_pos h]
-  · rw [if_neg h]
-    simp only
-    have ht : 0 ≤ t := le_of_lt (not_le.mp h)
-    positivity
+/-! `genRangeF_nonneg` is in QmcProofs/CommonRand.lean, `readVars_length` in QmcProofs/Common.lean -/
 
 /-- the value `gen_range(0.0..1.0)` returns on word `v`: `(v >> 12)·2^-52` -/
 theorem genRangeF_one (rs : RS) (v : Nat) (s : List Nat) (h : rs.script = v :: s) (hv : v < two64) :
@@ -284,9 +278,6 @@ theorem makeBondWeights_nonneg (H : Ham) : ∀ w ∈ makeBondWeights H, 0 ≤ w 
   unfold makeBondWeights at hw
   obtain ⟨b, _, rfl⟩ := List.mem_map.mp hw
   exact maxDiag_nonneg H b
-
-theorem readVars_length (st : List Bool) (vars : List Nat) : (readVars st vars).length = vars.length := by
-  unfold readVars; simp
 
 /-! ### small list facts about tables -/
 
